@@ -14,6 +14,7 @@ import (
 	"runtime"
 	"runtime/debug"
 	"runtime/metrics"
+	"runtime/pprof"
 	"strconv"
 	"strings"
 	"syscall"
@@ -47,7 +48,7 @@ type job struct {
 	Pad  bool `json:"pad,omitempty"`
 	// session
 	Tight bool   `json:"tight,omitempty"`
-	Only  string `json:"only,omitempty"` // "" = resume v1..v3 and add; "resume/v1".."resume/v3" | "add" = just that path
+	Only  string `json:"only,omitempty"` // "" = resume v1..v3 and add; "resume/v1".."resume/v3" | "add" = just that path; "v3+add"
 }
 
 type fileSum struct {
@@ -323,6 +324,12 @@ func workerMain() {
 			f.Close()
 		}
 		defer os.Remove(errPath)
+		if pf := os.Getenv("VERIF_C06_DEBUG_PROF"); pf != "" { // debugging aid, never set by the check itself
+			if f, err := os.Create(pf); err == nil {
+				pprof.StartCPUProfile(f)
+				defer func() { pprof.StopCPUProfile(); f.Close() }()
+			}
+		}
 		var j job
 		if err := json.Unmarshal(cj.Data, &j); err != nil {
 			core.HarnessError("worker: bad job data: %v", err)
@@ -456,82 +463,92 @@ func runBytes(j job) *bytesRes {
 func runParse(j job) *parseRes {
 	res := &parseRes{Hist: map[string]int{}}
 	ws := wrappers()
-	for k := range j.Cases {
-		c := &j.Cases[k]
-		ib := c.infoBytes()
-		var tb []byte
-		nontrivial := false
-		type done struct {
-			w    wrapper
-			in   []byte
-			cr   callRes
-			keep bool
+	type done struct {
+		w    wrapper
+		in   []byte
+		cr   callRes
+		keep bool
+	}
+	// Allocation is measured exactly (TotalAlloc) over a group of parseGroup cases x all entry points,
+	// inputs built beforehand; only a group over the smallest bound of its members is re-measured call by
+	// call (the parser is deterministic and side-effect free). A job with a single call is exact as is.
+	const parseGroup = 8
+	for g0 := 0; g0 < len(j.Cases); g0 += parseGroup {
+		g1 := g0 + parseGroup
+		if g1 > len(j.Cases) {
+			g1 = len(j.Cases)
 		}
-		var calls []done
+		ibs := make([][]byte, g1-g0)
+		tbs := make([][]byte, g1-g0)
+		big := false
+		for k := g0; k < g1; k++ {
+			ibs[k-g0] = j.Cases[k].infoBytes()
+			tbs[k-g0] = j.Cases[k].torrentBytes()
+			if len(tbs[k-g0]) > 1<<20 {
+				big = true
+			}
+		}
+		calls := make([]done, 0, (g1-g0)*len(ws))
+		nontrivial := make([]bool, g1-g0)
 		minLen := -1
 		start := totalAlloc()
-		for _, w := range ws {
-			if j.Wrapper != "" && j.Wrapper != w.name {
-				continue
-			}
-			var in []byte
-			if w.needInfo {
-				if ib == nil {
+		for k := g0; k < g1; k++ {
+			c := &j.Cases[k]
+			for _, w := range ws {
+				if j.Wrapper != "" && j.Wrapper != w.name {
 					continue
 				}
-				in = ib
-			} else {
-				if tb == nil {
-					tb = c.torrentBytes()
-					start = totalAlloc() // building the input is not the parser's work
+				in := tbs[k-g0]
+				if w.needInfo {
+					if c.Info == nil {
+						continue
+					}
+					in = ibs[k-g0]
 				}
-				in = tb
-			}
-			var info *metainfo.Info
-			var e error
-			pv, frame := guarded(func() { info, e = w.run(in) })
-			res.NCalls++
-			cr := callRes{Case: j.IDs[k], W: w.name, InLen: len(in)}
-			keep := false
-			outcome := ""
-			switch {
-			case pv != "":
-				cr.Panic, cr.Frame = pv, frame
-				keep = true
-				outcome = "panic"
-			case e != nil:
-				outcome = errClass(e)
-				cr.Err = outcome
-				if semantic(e) {
-					nontrivial = true
+				var info *metainfo.Info
+				var e error
+				pv, frame := guarded(func() { info, e = w.run(in) })
+				res.NCalls++
+				cr := callRes{Case: j.IDs[k], W: w.name, InLen: len(in)}
+				keep := false
+				outcome := ""
+				switch {
+				case pv != "":
+					cr.Panic, cr.Frame = pv, frame
+					keep = true
+					outcome = "panic"
+				case e != nil:
+					outcome = errClass(e)
+					cr.Err = outcome
+					if semantic(e) {
+						nontrivial[k-g0] = true
+					}
+				default:
+					cr.Acc = summarize(info)
+					keep = true
+					nontrivial[k-g0] = true
+					outcome = "accepted"
 				}
-			default:
-				cr.Acc = summarize(info)
-				keep = true
-				nontrivial = true
-				outcome = "accepted"
-			}
-			res.Hist[c.Class+"|"+w.name+"|"+outcome]++
-			calls = append(calls, done{w, in, cr, keep})
-			if minLen < 0 || len(in) < minLen {
-				minLen = len(in)
+				res.Hist[c.Class+"|"+w.name+"|"+outcome]++
+				calls = append(calls, done{w, in, cr, keep})
+				if minLen < 0 || len(in) < minLen {
+					minLen = len(in)
+				}
 			}
 		}
 		if len(calls) == 0 {
 			continue
 		}
-		// exact allocation of the whole group (all entry points on this case, plus a little harness
-		// bookkeeping); only a group over the smallest member bound is re-measured call by call
 		groupAlloc := totalAlloc() - start
 		if groupAlloc > res.MaxAlloc {
 			res.MaxAlloc = groupAlloc
-			res.MaxAllocAt = c.Desc
+			res.MaxAllocAt = j.Cases[g0].Desc
 		}
 		if groupAlloc > allocBound(minLen) {
 			for i := range calls {
 				d := &calls[i]
 				if len(calls) == 1 {
-					d.cr.Alloc = groupAlloc // nothing but the call was in the window
+					d.cr.Alloc = groupAlloc // nothing but the call (and its result summary) was in the window
 				} else {
 					runtime.GC()
 					d.cr.Alloc = exactAlloc(func() { d.w.run(d.in) })
@@ -546,11 +563,13 @@ func runParse(j job) *parseRes {
 				res.Calls = append(res.Calls, calls[i].cr)
 			}
 		}
-		if nontrivial {
-			res.NonTrivial++
+		for _, nt := range nontrivial {
+			if nt {
+				res.NonTrivial++
+			}
 		}
-		if len(ib) > 1<<20 || len(tb) > 1<<20 || groupAlloc > 1<<24 {
-			calls = nil
+		if big || groupAlloc > 1<<24 {
+			calls, ibs, tbs = nil, nil, nil
 			runtime.GC() // keep the address space of this process flat between hostile inputs
 		}
 	}
@@ -698,7 +717,7 @@ func runSession(j job) *sessRes {
 	}
 	res.MaxPieces, res.MaxSize = cfg.MaxPieces, cfg.MaxTorrentSize
 	// 1. resume data: write every case's info as versions 1..3, exactly as the resumer stores it
-	db, err := bbolt.Open(cfg.Database, 0o644, &bbolt.Options{Timeout: time.Second})
+	db, err := bbolt.Open(cfg.Database, 0o644, &bbolt.Options{Timeout: time.Second, NoSync: true}) // synced once by Close
 	if err != nil {
 		core.HarnessError("worker: bbolt: %v", err)
 	}
@@ -718,7 +737,7 @@ func runSession(j job) *sessRes {
 			continue // an empty info value means "magnet without metadata" to the resumer, not an info dict
 		}
 		for v := 1; v <= 3; v++ {
-			if j.Only != "" && j.Only != fmt.Sprintf("resume/v%d", v) {
+			if j.Only != "" && j.Only != fmt.Sprintf("resume/v%d", v) && !(j.Only == "v3+add" && v == 3) {
 				continue
 			}
 			id := fmt.Sprintf("r%dv%d", k, v)
@@ -760,7 +779,7 @@ func runSession(j job) *sessRes {
 	}
 	// 2. AddTorrent
 	for k := range j.Cases {
-		if j.Only != "" && j.Only != "add" {
+		if j.Only != "" && j.Only != "add" && j.Only != "v3+add" {
 			continue
 		}
 		tb := j.Cases[k].torrentBytes()
